@@ -1,9 +1,180 @@
 import SynthVerif.Model.Adsr
-import SynthVerif.Model.Lfo
-import SynthVerif.Model.Quantizer
-import SynthVerif.Model.Midi
-import SynthVerif.Model.Glide
-import SynthVerif.Model.Ribbon
+/-!
+# C02 — ADSR phases advance in order and last the configured time
+
+Part 1 (this file, discrete): the transition relation is exactly the documented one, and a timed phase ends on the
+first tick at which the accumulated phase reaches a full cycle, with the per-tick increment recomputed from the
+*current* time on every tick while the accumulated phase is kept (= "a time changed in mid-phase rescales only the
+remaining part"): `phase_end_law` states it for arbitrary sequences of ticks and parameter changes.
+Part 2 (`SynthVerif.Props.C02Timing`): bounds on the increment and on the number of ticks.
+-/
 namespace C02
-theorem placeholder_to_be_replaced : True := trivial
+open F32
+
+/-- the increment `tick` uses in a timed state: recomputed from the time currently configured for that state -/
+def incOf (a : Adsr) : Nat := (a.pa.setPeriod a.period).inc
+
+/-- gate-on: ignored during attack, otherwise a new attack from phase position 0, latching the current output -/
+theorem gate_on (a : Adsr) :
+    (a.state = .attack → a.gateOn = a) ∧
+    (a.state ≠ .attack → (a.gateOn).state = .attack ∧ (a.gateOn).pa.acc = 0 ∧ (a.gateOn).onLevel = a.value ∧
+      (a.gateOn).value = a.value) := by
+  constructor
+  · intro h; simp [Adsr.gateOn, h]
+  · intro h; cases hs : a.state <;> simp_all [Adsr.gateOn, PhaseAcc.reset]
+
+/-- gate-off: starts a release from attack, decay or sustain; ignored during release and at rest -/
+theorem gate_off (a : Adsr) :
+    ((a.state = .release ∨ a.state = .atRest) → a.gateOff = a) ∧
+    ((a.state = .attack ∨ a.state = .decay ∨ a.state = .sustain) →
+      (a.gateOff).state = .release ∧ (a.gateOff).pa.acc = 0 ∧ (a.gateOff).offLevel = a.value ∧
+      (a.gateOff).value = a.value) := by
+  constructor
+  · rintro (h | h) <;> simp [Adsr.gateOff, h]
+  · rintro (h | h | h) <;> simp [Adsr.gateOff, h, PhaseAcc.reset]
+
+/-- parameter changes never move the phase or the state -/
+theorem set_input (a : Adsr) (i : AdsrInput) :
+    (a.setInput i).state = a.state ∧ (a.setInput i).pa = a.pa ∧ (a.setInput i).value = a.value := by
+  cases i <;> simp [Adsr.setInput]
+
+/-- sustain and rest persist: `tick` changes neither the state nor the phase counter -/
+theorem tick_untimed (a : Adsr) (h : a.state.timed = false) :
+    ∃ a', a.tick = some a' ∧ a'.state = a.state ∧ a'.pa = a.pa := by
+  simp [Adsr.tick, h]
+
+theorem pa_tick (p : PhaseAcc) (h : p.acc + p.inc < 2 ^ 32) :
+    p.tick = some { p with acc := (p.acc + p.inc) % 2 ^ p.totalBits, last := (p.acc + p.inc) % 2 ^ p.totalBits,
+                           rolled := p.rolled || decide (p.mask < p.acc + p.inc) } := by
+  have : ¬ (p.acc + p.inc ≥ 2 ^ 32) := by omega
+  simp [PhaseAcc.tick, this]
+
+/-- **a timed phase**: `tick` panics only on u32 overflow of `accumulator + increment`; otherwise the phase ends
+iff the accumulated phase reaches a full cycle (2^24) on this tick, moving to the next state from position 0;
+if it does not end, the state is kept and the position advances by the increment just computed. -/
+theorem tick_timed (a : Adsr) (h : a.state.timed = true) (hr : a.pa.rolled = false)
+    (hno : a.pa.acc + incOf a < 2 ^ 32) :
+    ∃ a', a.tick = some a' ∧ a'.pa.rolled = false ∧ a'.pa.inc = incOf a ∧
+      a'.pa.totalBits = a.pa.totalBits ∧
+      (if 2 ^ a.pa.totalBits ≤ a.pa.acc + incOf a
+        then a'.state = a.state.next ∧ a'.pa.acc = 0
+        else a'.state = a.state ∧ a'.pa.acc = a.pa.acc + incOf a) := by
+  have hp : 0 < 2 ^ a.pa.totalBits := Nat.pow_pos (by decide)
+  have ht := pa_tick (a.pa.setPeriod a.period) hno
+  have em : (a.pa.setPeriod a.period).mask = 2 ^ a.pa.totalBits - 1 := rfl
+  unfold Adsr.tick
+  rw [if_pos h, ht]
+  dsimp only
+  have e1 : (a.pa.setPeriod a.period).acc = a.pa.acc := rfl
+  have e3 : (a.pa.setPeriod a.period).rolled = a.pa.rolled := rfl
+  have ei : (a.pa.setPeriod a.period).inc = incOf a := rfl
+  rw [em, e1, e3, hr, ei, Bool.false_or]
+  by_cases hroll : 2 ^ a.pa.totalBits ≤ a.pa.acc + incOf a
+  · have hd : decide (2 ^ a.pa.totalBits - 1 < a.pa.acc + incOf a) = true := by simp; omega
+    rw [hd, if_pos rfl]
+    refine ⟨_, rfl, rfl, rfl, rfl, ?_⟩
+    rw [if_pos hroll]
+    exact ⟨rfl, rfl⟩
+  · have hd : decide (2 ^ a.pa.totalBits - 1 < a.pa.acc + incOf a) = false := by simp; omega
+    rw [hd, if_neg (by simp)]
+    refine ⟨_, rfl, rfl, rfl, rfl, ?_⟩
+    rw [if_neg hroll]
+    refine ⟨rfl, ?_⟩
+    show (a.pa.acc + incOf a) % 2 ^ (a.pa.setPeriod a.period).totalBits = a.pa.acc + incOf a
+    exact Nat.mod_eq_of_lt (by show a.pa.acc + incOf a < 2 ^ a.pa.totalBits; omega)
+
+/-- the documented order: the only state changes `tick` can make -/
+theorem tick_order (a a' : Adsr) (h : a.tick = some a') :
+    a'.state = a.state ∨ (a.state.timed = true ∧ a'.state = a.state.next) := by
+  unfold Adsr.tick at h
+  split at h
+  · rename_i ht
+    split at h
+    · simp at h
+    · simp only [Option.some.injEq] at h
+      subst h
+      dsimp only
+      split
+      · right; exact ⟨ht, rfl⟩
+      · left; rfl
+  · simp only [Option.some.injEq] at h
+    subst h; left; rfl
+
+theorem next_table : AdsrState.next .attack = .decay ∧ AdsrState.next .decay = .sustain ∧
+    AdsrState.next .release = .atRest ∧ AdsrState.next .sustain = .sustain ∧ AdsrState.next .atRest = .atRest := by
+  decide
+
+/-! ### the phase-end law for arbitrary tick / parameter-change sequences -/
+
+/-- what can happen inside one phase: ticks and parameter changes (gate events start a new phase) -/
+inductive Step
+  | tick
+  | set (i : AdsrInput)
+
+/-- run steps while staying in the same phase; returns the list of increments used by the ticks so far and
+the state reached, or `none` on a panic -/
+def runPhase (a : Adsr) : List Step → Option (Adsr × List Nat)
+  | [] => some (a, [])
+  | .set i :: ss => runPhase (a.setInput i) ss
+  | .tick :: ss =>
+    let inc := incOf a
+    match a.tick with
+    | none => none
+    | some a' => match runPhase a' ss with
+      | none => none
+      | some (a'', incs) => some (a'', inc :: incs)
+
+/-- **phase-end law.**  Start anywhere inside a timed phase.  Run any sequence of ticks and parameter changes
+(no panic).  As long as the running sum of the increments the ticks used -- each computed from the time configured
+*at that tick* -- stays below a full cycle, the phase has not ended and the position is exactly the start position
+plus that sum.  Together with `tick_timed` (the phase ends on the tick where the sum reaches 2^24) this is the
+precise meaning of "a time changed in mid-phase rescales only the remaining part of the phase". -/
+theorem phase_end_law (ss : List Step) (a a' : Adsr) (incs : List Nat)
+    (ht : a.state.timed = true) (hr : a.pa.rolled = false) (hb : a.pa.totalBits ≤ 32)
+    (hrun : runPhase a ss = some (a', incs)) (hsum : a.pa.acc + incs.sum < 2 ^ a.pa.totalBits) :
+    a'.state = a.state ∧ a'.pa.acc = a.pa.acc + incs.sum ∧ a'.pa.rolled = false := by
+  induction ss generalizing a incs with
+  | nil =>
+    simp only [runPhase, Option.some.injEq, Prod.mk.injEq] at hrun
+    obtain ⟨rfl, rfl⟩ := hrun
+    simp [hr]
+  | cons st ss ih =>
+    cases st with
+    | set i =>
+      obtain ⟨e1, e2, _⟩ := set_input a i
+      have := ih (a.setInput i) incs (by rw [e1]; exact ht) (by rw [e2]; exact hr) (by rw [e2]; exact hb)
+        (by simpa [runPhase] using hrun) (by rw [e2]; exact hsum)
+      rw [e1, e2] at this
+      exact this
+    | tick =>
+      simp only [runPhase] at hrun
+      have h32 : (2:Nat) ^ a.pa.totalBits ≤ 2 ^ 32 := Nat.pow_le_pow_right (by decide) hb
+      cases htick : a.tick with
+      | none => simp [htick] at hrun
+      | some a1 =>
+        simp only [htick] at hrun
+        cases hrest : runPhase a1 ss with
+        | none => simp [hrest] at hrun
+        | some p =>
+          obtain ⟨a2, incs'⟩ := p
+          simp only [hrest, Option.some.injEq, Prod.mk.injEq] at hrun
+          obtain ⟨rfl, rfl⟩ := hrun
+          simp only [List.sum_cons] at hsum
+          obtain ⟨a1', h1, hr1, _, htb, hcase⟩ := tick_timed a ht hr (by omega)
+          rw [htick] at h1
+          simp only [Option.some.injEq] at h1
+          subst h1
+          have hlt : ¬ (2 ^ a.pa.totalBits ≤ a.pa.acc + incOf a) := by omega
+          rw [if_neg hlt] at hcase
+          obtain ⟨hs1, hacc1⟩ := hcase
+          have := ih a1 incs' (by rw [hs1]; exact ht) hr1 (by rw [htb]; exact hb) hrest
+            (by rw [hacc1, htb]; omega)
+          rw [hs1, hacc1] at this
+          refine ⟨this.1, ?_, this.2.2⟩
+          rw [this.2.1, List.sum_cons]; omega
+
+/-- non-vacuity of `tick_timed` / `phase_end_law`: a 1 kHz envelope in its attack phase -/
+example : (((Adsr.new (ofBits 0x447a0000)).setInput (.attack (timePeriod (ofBits 0x3dcccccd)))).gateOn).state.timed = true := by
+  decide
+
 end C02
